@@ -163,6 +163,13 @@ MUTANTS += [
                                              (P, "let len = 1 + rest.iter().take_while(|c| c.is_ascii_digit()).count();", "let len = rest.iter().take_while(|c| c.is_ascii_digit()).count();")]),
     ("idiom-take_while-loop-pred-negated", ["C11", "C12"], [("@patch", "refactors/parser-leaves-r2-R2/patch.diff", None),
                                                            (P, "while taken < input.len() && pred(input[taken]) {", "while taken < input.len() && !pred(input[taken]) {")]),
+    ("idiom-struct-offsets-read-not-advanced", ["C05", "C07"], [("@patch", "refactors/process-r3-R2/patch.diff", None),
+                                                               (I, "            self.processed = self.processed + data_len - remaining_len;\n            self.read = terminator_pos + 1;", "            self.processed = self.processed + data_len - remaining_len;\n            self.read = terminator_pos;")]),
+    ("idiom-struct-offsets-rebase-order", ["C07"], [("@patch", "refactors/process-r3-R2/patch.diff", None),
+                                                   (I, "        self.read -= self.processed;\n        self.processed = 0;", "        self.processed = 0;\n        self.read -= self.processed;")]),
+    ("idiom-scan-helper-returns-read-offset", ["C07"], [("@patch", "refactors/process-r3-R3/patch.diff", None), (I, "    Ok(proc_offset)\n}", "    Ok(read_offset)\n}")]),
+    ("idiom-scan-helper-write-outside-guard", ["C10"], [("@patch", "refactors/process-r3-R3/patch.diff", None),
+                                                       (I, "        if !res_buf.is_empty() {\n            adapter.write(&*res_buf).await?;", "        {\n            adapter.write(&*res_buf).await?;")]),
     ("idiom-take_while-loop-unguarded", ["C05"], [("@patch", "refactors/parser-leaves-r2-R2/patch.diff", None),
                                                  (P, "while taken < input.len() && pred(input[taken]) {", "while pred(input[taken]) {")]),
 ]
@@ -171,6 +178,4 @@ MUTANTS += [
 # refactorings that are known to raise alarms although behaviour is unchanged (DESIGN.md 6.3): the state of `process`
 # restructured beyond what the buffer-discipline rules can follow. Listed so that the run shows them for what they are.
 LIMITATIONS = {
-    "r-process-r3-R2": "the two offsets of process become fields of a private struct updated through &mut self methods (pathsum has no place semantics for struct-valued locals)",
-    "r-process-r3-R3": "the terminator loop of process moves into a function of its own that returns the new offset (roles of the offsets span two frames)",
 }
